@@ -19,3 +19,36 @@ SPECS["C18"] = {
     "assumptions": ["ASCII bytes (<0x80)"],
     "outside": ["inputs longer than the stated byte bound"],
 }
+
+SPECS["C10"] = {
+    "explanation": "HighestPriority report vs. reference over arbitrary priorities/finish orders and arbitrary operation histories; "
+                   "rule execution order / fail-on-first-error over arbitrary priorities and failing flags; all through the exported engine API.",
+    "level_text": "bounded: for all priority assignments, failing flags, finish orders and operation histories within the stated sizes, "
+                  "the solver finds no deviation from the reference (except listed known findings)",
+    "level_note": "trusts go/ssa, gosym, z3; sizes bounded (N monitors, K finishes, L history steps, R rules); one goroutine",
+    "harnesses": [
+        {"name": "H4-heap-N%d" % n, "pkg": "engine", "files": ["engine/c10.go"], "fn": "VerifC10HighestPriorityHeap",
+         "what": "%d activations with symbolic priorities, then %d finishes of symbolic members" % (n, k), "reach": ["finished"],
+         "quick": {"params": {"N": n, "K": k}, "unwind": 40, "wall_s": 300} if n <= 4 else None,
+         "thorough": {"params": {"N": n, "K": k}, "unwind": 40, "wall_s": 1200}}
+        for (n, k) in ((4, 3), (5, 2))
+    ] + [
+        {"name": "H4-validheap-N%d" % n, "pkg": "engine", "files": ["engine/c10.go"], "fn": "VerifC10HighestPriorityHeap",
+         "what": "arbitrary valid heap of %d distinct priorities (array order), then %d finishes of symbolic members" % (n, k), "reach": ["finished"],
+         "quick": {"params": {"N": n, "K": k, "HEAPORDER": 1}, "unwind": 40, "wall_s": 300},
+         "thorough": {"params": {"N": n, "K": k + 1, "HEAPORDER": 1}, "unwind": 40, "wall_s": 1200}}
+        for (n, k) in ((6, 2), (7, 2))
+    ] + [
+        {"name": "H3-history", "pkg": "engine", "files": ["engine/c10.go"], "fn": "VerifC10HighestPriorityHistory",
+         "what": "arbitrary histories of new/Activate/Skip/Finish over 3 monitors", "reach": ["step"],
+         "quick": {"params": {"L": 4}, "unwind": 40}, "thorough": {"params": {"L": 6}, "unwind": 40}},
+        {"name": "H2-dequeue-order", "pkg": "engine", "files": ["engine/c10.go"], "fn": "VerifC10DequeueOrder",
+         "what": "arbitrary Push/Pop sequences on the task queue, 2 cascades, symbolic priorities, rand.Intn symbolic", "reach": ["pop"],
+         "quick": {"params": {"S": 5}, "unwind": 40, "wall_s": 300}, "thorough": {"params": {"S": 7}, "unwind": 40, "wall_s": 1500}},
+        {"name": "H1-rule-order", "pkg": "engine", "files": ["engine/c10.go"], "fn": "VerifC10RuleOrder",
+         "what": "R rules with symbolic priorities and failing flags, both settings of fail-on-first-error", "reach": ["processed"],
+         "quick": {"params": {"R": 3}, "unwind": 40}, "thorough": {"params": {"R": 4}, "unwind": 60}},
+    ],
+    "assumptions": ["priorities in 0..15 (0..7 in histories)"],
+    "outside": ["more monitors/rules than the bounds", "negative priorities"],
+}
